@@ -859,6 +859,32 @@ static void ptr_tests(std::mt19937_64& rng, bool thorough)
   }
   ptr_flush();
   cb.unregister();
+  // function pointers: representation 0 is null on every path (with and without a sandbox at hand)
+  {
+    using Fn = int (*)(int);
+    auto pf = sb->malloc_in_sandbox<Fn>();
+    *reinterpret_cast<GP*>(pf.UNSAFE_unverified()) = 0;
+    const void* got = reinterpret_cast<const void*>(0x1);
+    const char* r = guarded([&] {
+      tainted<Fn, Sbx> t = *pf;
+      got = reinterpret_cast<const void*>(t.UNSAFE_unverified());
+    });
+    ptr_event("fn cell", 0, got, r);
+    got = reinterpret_cast<const void*>(0x1);
+    r = guarded([&] { got = reinterpret_cast<const void*>((*pf).UNSAFE_unverified()); });
+    ptr_event("fn cell.unverified", 0, got, r);
+    got = reinterpret_cast<const void*>(0x1);
+    r = guarded([&] { got = reinterpret_cast<const void*>(sb->get_unsandboxed_pointer<Fn>((GP)0)); });
+    ptr_event("fn get_unsandboxed_pointer(0)", 0, got, r);
+    g_ret_rep = 0;
+    got = reinterpret_cast<const void*>(0x1);
+    r = guarded([&] {
+      auto res = sb->template INTERNAL_invoke_with_func_name<Fn(int)>("ret_ptr", 0);
+      got = reinterpret_cast<const void*>(res.UNSAFE_unverified());
+    });
+    ptr_event("fn invoke-result", 0, got, r);
+    ptr_flush();
+  }
   // stores: every offset of the region, null; the representation written must be the offset
   for (long off = -1; off < SIZE; off++) {
     tainted<int*, Sbx> t = off < 0 ? tainted<int*, Sbx>(nullptr) : ptr_at<int>(off);
